@@ -519,7 +519,17 @@ def h_results(ctx, env, names, what):
         if not Grounder.supports(problem.kind):
             return
         res = Grounder().compile(problem, CompilationKind.GROUNDING)
-        msg = w.convert(res)
+        try:
+            msg = w.convert(res)
+        except NotImplementedError:
+            # "that the protobuf writer accepts": the writer has no message for some operator of this example (interpreted functions);
+            # outside the claim iff it refuses the example problem itself for the same reason
+            try:
+                w.convert(problem)
+            except NotImplementedError:
+                ctx.witness("writer-refuses-example")
+                return
+            raise
         back = r.convert(msg, problem)
         ctx.check(back.problem == res.problem, "compiler-result:problem-differs", f"{name}: grounded problem does not read back equal")
         ctx.check(back.problem.kind == res.problem.kind, "compiler-result:kind-differs", f"{name}: grounded problem kind differs")
